@@ -172,6 +172,9 @@ def as_list(I, st, fr, e, v):
                     return as_list(I, s2, fr, e, it)
     if isinstance(v, VRange):
         return VSeq(mk_arange(v.lo.p if v.lo else 0, v.hi.p + (1 if v.incl else 0)))
+    import mapmodel
+    if mapmodel.is_map(v):
+        return mapmodel.h_iter(I, st, fr, e, None, [v])[0][1]
     if isinstance(v, VTop):
         return VSeq(leaf(("top-iter", v.why)))
     if isinstance(v, VEnum) and v.variant in ("Some", "None"):
@@ -313,6 +316,9 @@ def seq_update(I, st, v, ip, rest, val):
 def index_expr(I, st, fr, e, base, ix):
     base = deref(I, st, base)
     ix = deref(I, st, ix)
+    import mapmodel
+    if mapmodel.is_map(base) and isinstance(ix, VNat):
+        return mapmodel.index(I, st, fr, e, base, ix)
     if isinstance(base, VSeq):
         if isinstance(ix, VNat):
             I.pre_ge(st, fr, e, "index", t_len(base.t), ix.p + 1, f"{show_poly(ix.p)} < len({show_term(base.t)})")
@@ -831,6 +837,62 @@ def h_extend(I, st, fr, e, c, a):
     place, cur = place_of(I, st, a[0])
     y = as_list(I, st, fr, e, a[1])
     I.write_place(st, place, VSeq(mk_concat([cur.t, y.t])))
+    return [(st, UNIT, None)]
+
+
+def h_sort_nat(I, st, fr, e, c, a):
+    """v.sort() / v.sort_unstable() on a vector of naturals: the vector re-indexed along its sorting permutation; the
+    distinct keys of a map, sorted, are the contract's `spkeys`."""
+    place, cur = place_of(I, st, a[0])
+    if not isinstance(cur, VSeq):
+        raise NotImplementedError("sort on " + type(cur).__name__)
+    if label_of(cur.t):
+        raise NotImplementedError("sort of labels")
+    if cur.t == EMPTY:
+        return [(st, UNIT, None)]
+    if cur.t[0] == "hmkeys":
+        new = ("spkeys", cur.t[1])
+    elif cur.t[0] == "spkeys":
+        new = cur.t
+    else:
+        new = mk_gather(st, cur.t, ("argsort", cur.t))
+    I.write_place(st, place, VSeq(new))
+    return [(st, UNIT, None)]
+
+
+def h_sort_unstable_by_key(I, st, fr, e, c, a):
+    """sort_unstable_by_key: decided only where the order of equal keys cannot matter — the (key, value) entries of a
+    map sorted by their (distinct) keys: the entries in ascending key order."""
+    _no_effects(I, a[1], "h_sort_unstable_by_key")
+    place, cur = place_of(I, st, a[0])
+    if isinstance(cur, VSeq) and cur.t == EMPTY:
+        return [(st, UNIT, None)]
+    t = cur.t if isinstance(cur, VSeq) else None
+    if t is not None and t[0] == "zip" and t[1][0] in ("hmkeys", "spkeys") and t[2][0] == "gather" and t[2][2] == t[1]:
+        s = st.copy()
+        elem = seq_elem(I, s, cur, None)
+        s2, r = apply_closure_once(I, s, fr, e, a[1], [elem])
+        if isinstance(elem, VTup) and isinstance(r, VNat) and isinstance(elem.items[0], VNat) and r.p == elem.items[0].p:
+            k = ("spkeys", t[1][1])
+            I.write_place(st, place, VSeq(("zip", k, mk_gather(st, t[2][1], k))))
+            return [(st, UNIT, None)]
+    raise NotImplementedError("sort_unstable_by_key with possibly equal keys")
+
+
+def h_dedup(I, st, fr, e, c, a):
+    """v.dedup(): consecutive repeats removed (NOT the distinct values unless v is sorted)."""
+    place, cur = place_of(I, st, a[0])
+    if not isinstance(cur, VSeq):
+        raise NotImplementedError("dedup on " + type(cur).__name__)
+    if cur.t == EMPTY or cur.t[0] in ("spkeys", "hmkeys"):
+        return [(st, UNIT, None)]
+    t = cur.t
+    if t[0] == "gather" and t[2] == ("argsort", t[1]):
+        new = ("spkeys", t[1])          # sorted, then consecutive repeats removed: the distinct values, ascending
+    else:
+        new = ("dedup", t)
+        st.add_ge(t_len(t) - t_len(new))
+    I.write_place(st, place, VSeq(new))
     return [(st, UNIT, None)]
 
 
@@ -1443,6 +1505,10 @@ TABLE = {
     "std::mem::swap": h_mem_swap,
     "std::vec::Vec::<T, A>::clear": h_clear,
     "std::vec::Vec::<T, A>::append": h_append,
+    "core::slice::<impl [T]>::sort_unstable": h_sort_nat,
+    "std::slice::<impl [T]>::sort": h_sort_nat,
+    "std::vec::Vec::<T, A>::dedup": h_dedup,
+    "core::slice::<impl [T]>::sort_unstable_by_key": h_sort_unstable_by_key,
     "std::vec::Vec::<T, A>::reserve": h_capacity_noop,
     "std::vec::Vec::<T, A>::reserve_exact": h_capacity_noop,
     "std::vec::Vec::<T, A>::shrink_to_fit": h_capacity_noop,
@@ -1990,9 +2056,22 @@ def fold_loop(I, st, fr, e, seq, pat, body, roots, run_body, ind=None, skip_boun
             final[(r, path)] = VSeq(mk_concat([t0] + lifted))
         return finish(final)
     # ---- (i) indexed in-place updates
-    if kinds <= {"same", "upd"} and "upd" in kinds:
+    if kinds <= {"same", "upd", "app"} and "upd" in kinds:
         final = {}
         for (r, path), k in c.items():
+            if k[0] == "app":
+                # a plain append next to the indexed update (e.g. the key log of a counting map)
+                P, t0 = seq_mark[(r, path)]
+                lifted = []
+                for x in k[1]:
+                    if mentions(x, all_marks) or mentions(x, nat_atoms):
+                        return abort()
+                    y = lift_added(I, res, S, x, {})
+                    if y is None or mentions(y, all_marks):
+                        return abort()
+                    lifted.append(y)
+                final[(r, path)] = VSeq(mk_concat([t0] + lifted))
+                continue
             if k[0] != "upd":
                 continue
             P, t0 = seq_mark[(r, path)]
@@ -2206,3 +2285,25 @@ def fold_update_term(I, st, S, t0, ip, fval):
     if V[0] == "fill":
         return ("sac", t0, K, as_poly(V[1]))
     return ("sa", t0, K, V)
+
+
+def _register_maps():
+    import mapmodel as mm
+    for ty, path in ((mm.HASH, "std::collections::HashMap"), (mm.BTREE, "std::collections::BTreeMap")):
+        for sig in ("::<K, V>::new", "::<K, V, S, A>::new", "::<K, V, A>::new", "::<K, V>::with_capacity"):
+            TABLE[path + sig] = mm.h_new(ty)
+        for sig in ("::<K, V, S, A>::", "::<K, V, A>::", "::<K, V>::"):
+            TABLE[path + sig + "entry"] = mm.h_entry
+            TABLE[path + sig + "keys"] = mm.h_keys
+            TABLE[path + sig + "into_keys"] = mm.h_keys
+            TABLE[path + sig + "values"] = mm.h_values
+            TABLE[path + sig + "into_values"] = mm.h_values
+            TABLE[path + sig + "iter"] = mm.h_iter
+            TABLE[path + sig + "len"] = mm.h_len
+    for ent in ("std::collections::hash_map::Entry::<'a, K, V, A>::", "std::collections::hash_map::Entry::<'a, K, V>::",
+                "std::collections::btree_map::Entry::<'a, K, V, A>::", "std::collections::btree_map::Entry::<'a, K, V>::"):
+        TABLE[ent + "or_insert"] = mm.h_or_insert
+        TABLE[ent + "or_default"] = mm.h_or_default
+
+
+_register_maps()
